@@ -21,7 +21,8 @@ func setupTeardownCallers(c *core.Ctx) []ssa.CallInstruction {
 			if an.Callee(call) != nil || call.Common().IsInvoke() {
 				continue
 			}
-			if fld, owner := an.TerminalField(call.Common().Value); fld != nil && an.IsNamed(owner, workersPkg, "ActiveScenario") {
+			// a function-typed field of the active scenario, possibly grouped with the setup handle in a struct it holds
+			if fld := an.FieldIn(call.Common().Value, workersPkg, "ActiveScenario"); fld != nil {
 				if _, isSig := fld.Type().Underlying().(*types.Signature); isSig {
 					out = append(out, call)
 				}
@@ -132,6 +133,24 @@ func c06(c *core.Ctx, r *core.Report) {
 			}
 		}
 		td := callers[0].Parent()
+		// the teardown may be wrapped in a method of the handle's owner: the function Do defers is then its one caller
+		for hop := 0; hop < 2; hop++ {
+			inDo := false
+			for _, call := range an.AllCalls(do) {
+				if an.Callee(call) == td {
+					inDo = true
+				}
+			}
+			if inDo {
+				break
+			}
+			sites := an.CallSitesOf(c, td)
+			if len(sites) != 1 {
+				break
+			}
+			callers[0] = sites[0]
+			td = sites[0].Parent()
+		}
 		if an.InLoop(callers[0]) {
 			r.Violation(core.FuncName(td)+"#teardown-loop", an.Pos(c, callers[0]), "setup teardown invoked in a loop")
 		}
@@ -378,7 +397,7 @@ func handleWiring(c *core.Ctx, r *core.Report) {
 			// roles by type: the *testing.T field and the func() field of the handle
 			var t, td ssa.Value
 			tName, tdName := "?", "?"
-			for name, v := range an.LiteralFields(al) {
+			for name, v := range literalLeafFields(al) {
 				if an.IsNamed(v.Type(), testingPkg, "T") {
 					t, tName = v, name
 				}
@@ -441,4 +460,28 @@ func handleWiring(c *core.Ctx, r *core.Report) {
 			r.Check(got == a.want, a.fn+"#flag", an.Pos(c, ret), a.fn+" reads T."+a.want, a.fn+" reads T."+got+" instead of T."+a.want)
 		}
 	}
+}
+
+// literalLeafFields is LiteralFields that also lists the fields of struct values nested in the literal
+// (`outer{group: inner{f: v}}` is stored field by field through &outer.group.f).
+func literalLeafFields(al ssa.Value) map[string]ssa.Value {
+	out := map[string]ssa.Value{}
+	var walk func(base ssa.Value, depth int)
+	walk = func(base ssa.Value, depth int) {
+		for _, ref := range an.Referrers(base) {
+			fa, ok := ref.(*ssa.FieldAddr)
+			if !ok || fa.X != base {
+				continue
+			}
+			name := an.FieldOfAddr(fa).Name()
+			for _, st := range an.StoresTo(fa) {
+				out[name] = st.Val
+			}
+			if _, isStruct := an.FieldOfAddr(fa).Type().Underlying().(*types.Struct); isStruct && depth < 2 {
+				walk(fa, depth+1)
+			}
+		}
+	}
+	walk(al, 0)
+	return out
 }
